@@ -16,7 +16,7 @@ RULE = ("E1/E2: ('table', t) every entry of S, Si, T1-T8, U1-U4, rcon against th
         "reference cipher; ('kat', i) FIPS-197 vectors and seed keys; ('mode', ...) ECB, CBC, CFB(1,8,16), OFB, CTR vs reference modes for "
         "every length 1..64 (block modes: multiples of 16) x IV {none, zero, seed}, CTR start values carrying across every byte boundary (2^(8j)-1, 2^(8j)-2 for j = 1..16) incl. wrap-around; "
         "('feed', mode, dir, padding, L, k) ALL ways to cut an input of length L at <= k points (empty feeds included) through Encrypter/"
-        "Decrypter; ('adapter', L, iv, key) create_AES128 encrypt/decrypt/mac for every length 1..96; ('hist', ops) every sequence of <= d "
+        "Decrypter; ('stream', mode, L, block size) encrypt_stream / decrypt_stream around their 8 KiB block size; ('adapter', L, iv, key) create_AES128 encrypt/decrypt/mac for every length 1..96 and around 1 KiB / 4 KiB / 64 KiB; ('hist', ops) every sequence of <= d "
         "operations over 3 adapter objects x {enc d1, enc d2, dec x, mac d1}, each result compared with a fresh object; ('pad', n). "
         "Distinct = distinct case tuples, non-trivial = all; measured sub-counts (table entries, splits) are in 'measured'.")
 ASSUMPTIONS = [
@@ -128,7 +128,14 @@ def cases(ctx):
                     yield ("feed", m, direction, padding, L, 2)
                     if not ctx.quick:
                         yield ("feed", m, direction, padding, L, 3)
-    for L in range(1, 97):
+    # stream helpers (encrypt_stream / decrypt_stream) with data around their 8 KiB block size and custom block sizes
+    for m in MODES:
+        for L in (0, 1, 16, 17, 8191, 8192, 8193, 16384, 20001):
+            for bs in (None, 1, 16, 1000):
+                if bs in (1,) and L > 8193:
+                    continue
+                yield ("stream", m, L, bs)
+    for L in list(range(1, 97)) + [1023, 1024, 1025, 4096, 4097, 65536, 65537]:
         for ivi in range(3):
             for ki in range(2):
                 yield ("adapter", L, ivi, ki)
@@ -328,6 +335,26 @@ def run_case(ctx, case):
                               "%s %s feeder (padding %s): %d bytes cut at %r gives a different result" % (
                                   m, direction, padding, len(inp), cuts))
         o.extra = {"feeder_splits": n}
+        return o
+    if kind == "stream":
+        import io as _io
+        _, m, L, bs = case
+        key = ctx.sym("c16-streamkey", 16)
+        iv = ctx.sym("c16-streamiv", 16)
+        data = ctx.sym("c16-streamdata-%d" % L, L)
+        block_mode = m in ("ecb", "cbc")
+        exp = ref_mode(m, key, iv, A.pkcs7_pad(data) if block_mode else data, True)
+        kw = {} if bs is None else {"block_size": bs}
+        out = _io.BytesIO()
+        bf.encrypt_stream(mk_mode(m, key, iv if m not in ("ecb", "ctr") else None, 1 if m == "ctr" else None), _io.BytesIO(data), out, **kw)
+        if out.getvalue() != exp:
+            o.cls = "differs"
+            return o.viol("stream|%s|enc" % m, "encrypt_stream(%s) of %d bytes (block_size %r) differs from the standard result" % (m, L, bs))
+        back = _io.BytesIO()
+        bf.decrypt_stream(mk_mode(m, key, iv if m not in ("ecb", "ctr") else None, 1 if m == "ctr" else None), _io.BytesIO(exp), back, **kw)
+        if back.getvalue() != data:
+            o.cls = "differs"
+            return o.viol("stream|%s|dec" % m, "decrypt_stream(%s) of %d bytes (block_size %r) does not return the data" % (m, L, bs))
         return o
     if kind == "adapter":
         _, L, ivi, ki = case
